@@ -230,7 +230,10 @@ class ErrorTree(object):
         for error in errors:
             container = self
             for element in error.path:
-                container = container[element]
+                # Not ``container[element]``: that checks the element against
+                # the instance of whichever error arrived first, which fails
+                # for paths naming a missing property or a property name.
+                container = container._contents[element]
             container.errors[error.validator] = error
 
             container._instance = error.instance
